@@ -284,6 +284,11 @@ def main(tier):
                     continue
                 cid += 1
                 pos = rnd.randrange(0, (top_limit if kind == "top" else len(lst)) + 1)
+                if kind == "top" and rnd.random() < 0.15:
+                    pos = 0         # in front of everything, also of the segment definition (the thorough tier found a defect there)
+                if kind == "top" and cls == "labelredef":
+                    pos = max(pos, 1)   # labels in front of the first segment definition are namespaces without a value (the
+                                        # project's own examples use them so): two of them are not a redefinition
                 # the variants that refer to `index` (faulty only in the first iteration) belong to loop bodies: elsewhere they
                 # would be an undefined-symbol fault in disguise
                 vv = rnd.randrange(4) if (kind == "loop" or cls not in ("immrange", "arity")) else rnd.randrange(2)
